@@ -369,11 +369,118 @@ pub fn check_wide(c: &WideCase, st: &mut Stats, shard: usize) -> Check {
     Ok(())
 }
 
+
+/// The pre-activation liquidity phase: testnet histories below the height (500) at which TIP-902/906 switch on, with
+/// the legacy deposit rule *allowed* (every other phase keeps deposits out of mainnet/testnet below 978 392): pools -
+/// also the later built-in ERG/SYM pool, which anybody can create before TIP-902 - are created by deposits, redeemed,
+/// and carried across the activation height. The legacy rule can abort the process inside novasmt in checked builds,
+/// so these histories run in child processes: a child that dies is counted, a panic the child catches is reported.
+pub fn profile4() -> Profile {
+    let mut p = profile3();
+    p.mainnet_like_legacy = false;
+    p.net_w = [0, 0, 100, 0, 0, 0, 0, 0, 0];
+    p
+}
+
+pub fn pre_activation_child(plan: &crate::plan::Plan) -> serde_json::Value {
+    let mut st = Stats::default();
+    let r = crate::plan::run_plan(plan, &profile4(), &mut C09::default(), &mut st, 212);
+    let classes: std::collections::BTreeMap<String, u64> = st.classes.iter().map(|(k, v)| (k.clone(), *v)).collect();
+    match r {
+        Ok(()) => serde_json::json!({"violation": null, "classes": classes}),
+        Err(v) => serde_json::json!({"violation": {"signature": v.signature, "detail": v.detail}, "classes": classes}),
+    }
+}
+
+pub fn pre_activation_phase(ctx: &Ctx, n_plans: usize) -> Outcome {
+    use proptest::strategy::{Strategy, ValueTree};
+    use proptest::test_runner::{Config, RngAlgorithm, TestRng, TestRunner};
+    let mut out = Outcome::empty();
+    let seed = blake3::hash(format!("c09-pre-activation-{}", ctx.seed).as_bytes());
+    let mut runner = TestRunner::new_with_rng(Config::default(), TestRng::from_seed(RngAlgorithm::ChaCha, seed.as_bytes()));
+    let prof = profile4();
+    let exe = match std::env::current_exe() {
+        Ok(e) => e,
+        Err(_) => return out,
+    };
+    let dir = crate::evidence::verif_root().join("replays").join("C09").join("pre-activation-tmp");
+    let _ = std::fs::create_dir_all(&dir);
+    let plans: Vec<crate::plan::Plan> = (0..n_plans).filter_map(|_| arb_hostile_liquidity_plan(&prof).new_tree(&mut runner).ok().map(|t| t.current())).collect();
+    let results: Vec<(usize, Option<serde_json::Value>)> = {
+        use std::sync::Mutex;
+        let next = Mutex::new(0usize);
+        let res = Mutex::new(vec![]);
+        std::thread::scope(|sc| {
+            for _ in 0..ctx.shards.min(16) {
+                sc.spawn(|| loop {
+                    let i = {
+                        let mut g = next.lock().unwrap();
+                        let i = *g;
+                        *g += 1;
+                        i
+                    };
+                    if i >= plans.len() {
+                        break;
+                    }
+                    let f = dir.join(format!("plan-{}.json", i));
+                    if std::fs::write(&f, serde_json::to_vec(&plans[i]).unwrap()).is_err() {
+                        continue;
+                    }
+                    let o = std::process::Command::new(&exe).arg("legacy-plan").arg("C09").arg(&f).output();
+                    let v = match o {
+                        Ok(o) if o.status.success() => serde_json::from_slice::<serde_json::Value>(&o.stdout).ok(),
+                        _ => None,
+                    };
+                    let _ = std::fs::remove_file(&f);
+                    res.lock().unwrap().push((i, v));
+                });
+            }
+        });
+        let mut r = res.into_inner().unwrap();
+        r.sort_by_key(|x| x.0);
+        r
+    };
+    for (i, v) in results {
+        out.stats.evals += 1;
+        match v {
+            None => out.stats.exclude("pre-activation-child-died-or-failed"),
+            Some(j) => {
+                if let Some(cl) = j.get("classes").and_then(|c| c.as_object()) {
+                    for (k, n) in cl {
+                        *out.stats.classes.entry(format!("pre-activation:{}", k)).or_insert(0) += n.as_u64().unwrap_or(0);
+                    }
+                }
+                if let Some(viol) = j.get("violation").filter(|x| !x.is_null()) {
+                    let sig = viol["signature"].as_str().unwrap_or("pre-activation").to_string();
+                    let detail = viol["detail"].as_str().unwrap_or("").to_string();
+                    let vv = Violation::new(sig, detail);
+                    if ctx.known.matches("C09", &vv.signature).is_some() {
+                        *out.stats.known_hits.entry(vv.signature.clone()).or_insert(0) += 1;
+                    } else if out.violations.is_empty() {
+                        let body = serde_json::json!({"property": "C09", "seed": ctx.seed, "tier": ctx.tier, "phase": "pre-activation", "signature": vv.signature, "detail": vv.detail, "case": {"pre_activation_plan": plans[i]}});
+                        let p = crate::evidence::write_replay("C09", &vv.signature, &body);
+                        out.violations.push((vv, p));
+                    }
+                } else {
+                    out.stats.class("pre-activation-history-clean");
+                    out.stats.nontrivial(h64(format!("pre-activation-{}-{}", ctx.seed, i).as_bytes()));
+                }
+            }
+        }
+    }
+    let _ = std::fs::remove_dir_all(&dir);
+    out
+}
+
 pub fn run(ctx: &Ctx) -> (Outcome, String, Option<bool>) {
     let mut p = profile();
     if ctx.thorough() {
         p.max_steps = 30;
         p.max_txs = 10;
+    }
+    // diagnostic knob (never set by the registered commands): run only the pre-activation phase
+    if std::env::var("MV_ONLY_PHASE").ok().as_deref() == Some("pre-activation") {
+        return (pre_activation_phase(ctx, if ctx.thorough() { 3000 } else { 320 }), "diagnostic run of one phase".into(), None);
     }
     let mut out = super::hist::run_histories(ctx, "hostile-histories", p, ctx.scale(3000, 30000), C09::default);
     {
@@ -394,6 +501,7 @@ pub fn run(ctx: &Ctx) -> (Outcome, String, Option<bool>) {
             },
         ));
     }
+    out.absorb(pre_activation_phase(ctx, if ctx.thorough() { 3000 } else { 320 }));
     out.absorb(crate::runner::run_sharded(ctx, "wide-transactions", ctx.scale(20, 300), arb_wide, |c, st, shard| check_wide(c, st, shard)));
     // single transactions of every shape (sizes, covenant weights up to saturation, every multiplier class)
     let o = crate::runner::run_sharded(
@@ -410,11 +518,14 @@ pub fn run(ctx: &Ctx) -> (Outcome, String, Option<bool>) {
         },
     );
     out.absorb(o);
-    let rule = "Generated histories in adversarial mode: ~43% of transactions mutated (off-by-one values, repeated/missing/spent inputs, dropped or garbage covenants, corrupted or foreign signatures, MAX_COINVAL+1, 256 outputs, fee-1, swapped kind, random data, duplicates, empty transactions, destroyed outputs), zero-valued and maximal pool requests, pool keys in 6 alternative spellings (~35% of requests), every proposer delta class, every fee-multiplier class, undecodable stake documents. Oracle: every call of apply_tx_batch, seal, header, next_unsealed, to_block/from_block runs under catch_unwind (engine built with overflow checks and debug assertions); any panic is a violation keyed by (panic site, message class); a watchdog turns a hang into exit 2. A phase of hostile liquidity histories by construction: faucets that also forge liquidity tokens of existing pools (amounts equal to / 60% of / just above what the pool has issued), then blocks dense in withdrawals (several per pool per block), deposits, swaps and more faucets; every sealed block is also offered back to its parent in 4 of 10 hostile variants (extreme header fields, hostile or signature-less transactions slipped in, transactions dropped, extreme proposer actions) through apply_block. A phase of wide transactions consolidates 250-300 existing coins in one transaction with coins under other covenants placed around position 255/256 (signatures in the literal slot or modulo 256), then seals and re-validates the block. Another phase applies single faucet transactions of every shape (0-255 outputs, data to 4 KiB, 0-4 covenants whose weights range from 1 to saturation through up to 10 nested 65535-iteration loops, multipliers 0..2^100) and treats any panic as a violation. Non-trivial = a case in which >=1 hostile shape reached the STF and the call returned a rejection or sealing survived; distinct by the set of hostile shapes in the case.".to_string();
+    let rule = "Generated histories in adversarial mode: ~43% of transactions mutated (off-by-one values, repeated/missing/spent inputs, dropped or garbage covenants, corrupted or foreign signatures, MAX_COINVAL+1, 256 outputs, fee-1, swapped kind, random data, duplicates, empty transactions, destroyed outputs), zero-valued and maximal pool requests, pool keys in 6 alternative spellings (~35% of requests), every proposer delta class, every fee-multiplier class, undecodable stake documents. Oracle: every call of apply_tx_batch, seal, header, next_unsealed, to_block/from_block runs under catch_unwind (engine built with overflow checks and debug assertions); any panic is a violation keyed by (panic site, message class); a watchdog turns a hang into exit 2. A phase of hostile liquidity histories by construction: faucets that also forge liquidity tokens of existing pools (amounts equal to / 60% of / just above what the pool has issued), then blocks dense in withdrawals (several per pool per block), deposits, swaps and more faucets; every sealed block is also offered back to its parent in 4 of 10 hostile variants (extreme header fields, hostile or signature-less transactions slipped in, transactions dropped, extreme proposer actions) through apply_block. A phase of wide transactions consolidates 250-300 existing coins in one transaction with coins under other covenants placed around position 255/256 (signatures in the literal slot or modulo 256), then seals and re-validates the block. Another phase applies single faucet transactions of every shape (0-255 outputs, data to 4 KiB, 0-4 covenants whose weights range from 1 to saturation through up to 10 nested 65535-iteration loops, multipliers 0..2^100) and treats any panic as a violation. A pre-activation phase runs hostile liquidity histories on the testnet below height 500 with the legacy deposit rule allowed (pools, including the later built-in ERG/SYM pool, created by deposits, redeemed, and carried across the activation of TIP-902/906) in child processes: a panic the child catches is a violation, a child that dies in the legacy rule's novasmt abort is counted as excluded. Non-trivial = a case in which >=1 hostile shape reached the STF and the call returned a rejection or sealing survived; distinct by the set of hostile shapes in the case.".to_string();
     (out, rule, None)
 }
 
 pub fn replay(case: &serde_json::Value) -> Check {
+    if let Some(lp) = case.get("pre_activation_plan") {
+        return super::hist::replay_history(lp, &profile4(), C09::default());
+    }
     if case.get("n_plain").is_some() {
         let c: WideCase = serde_json::from_value(case.clone()).map_err(|e| Violation::new("replay-format", e.to_string()))?;
         return check_wide(&c, &mut Stats::default(), 200);
